@@ -1,7 +1,7 @@
 \* rule-by-rule machine on a reduced product: order of rules
 CONSTANTS
  RowVals <- QRows
- ColVals <- QCols
+ ColVals <- SCols
  Roles <- QRoles
  DescRoles <- QDescRoles
  Headers <- QHeaders
